@@ -345,7 +345,7 @@ def stateLine (nd : Node) : String :=
 def poolLine (nd : Node) : String :=
   let tids := nd.pentries.filterMap (fun p => if Pool.cacheHas p.1 nd.pool.cache then some p.2 else none)
   let sorted := tids.foldl (fun acc t => insertSorted (t, "") acc) []
-  s!"len={nd.pool.length} " ++ ",".intercalate (sorted.map (fun p => toString p.1))
+  "holds " ++ (if sorted.isEmpty then "-" else ",".intercalate (sorted.map (fun p => toString p.1)))
 
 def step (nd : Node) (line : String) : Node × String :=
   match words line with
